@@ -9,7 +9,7 @@ from asyncio import base_events, tasks
 import anyio
 from anyio._backends import _asyncio as _anyio_asyncio
 
-from .core import Deadlock, HarnessError, StepCap
+from .core import Deadlock, HarnessError, StepCap, no_progress
 
 if not hasattr(tasks, "_PyTask"):
     raise HarnessError("seam missing: asyncio.tasks._PyTask")
@@ -258,7 +258,7 @@ class SimLoop(base_events.BaseEventLoop):
                 e = StepCap()
                 # no virtual time passed and no network operation was issued during the
                 # second half of the steps: the callers spin (livelock), they do not work
-                e.spinning = getattr(self, "half_mark", None) == (self.world.now, self.world.opcount)
+                e.spinning = no_progress(getattr(self, "half_mark", None), self.world)
                 e.blocked = self.blocked() if e.spinning else []
                 raise e
             if _is_spinner(h):
